@@ -11,19 +11,19 @@ import (
 // ChunkReader delivers a fixed byte string according to a schedule of chunk sizes. It obeys the io.Reader contract:
 // never more than len(p) bytes, (0,nil) only occasionally and never more than 3 times in a row, io.EOF repeated forever.
 type ChunkReader struct {
-	data      []byte
-	pos       int
-	sizes     func() int // next chunk size (>=0); 0 means an empty read
-	eofWithData bool     // return the final bytes together with io.EOF
-	zeros     int
+	data        []byte
+	pos         int
+	sizes       func() int // next chunk size (>=0); 0 means an empty read
+	eofWithData bool       // return the final bytes together with io.EOF
+	zeros       int
 	// observations
-	Calls        int
+	Calls         int
 	CallsAfterEOF int
-	EmptyReads   int
-	SplitRune    int // chunk boundaries that fell inside a multi-byte rune
-	SplitCRLF    int // boundaries between \r and \n
-	Boundaries   map[int]bool
-	SpinLimit    int // panic with ErrSpin after this many calls past EOF (0 = off)
+	EmptyReads    int
+	SplitRune     int // chunk boundaries that fell inside a multi-byte rune
+	SplitCRLF     int // boundaries between \r and \n
+	Boundaries    map[int]bool
+	SpinLimit     int // panic with ErrSpin after this many calls past EOF (0 = off)
 }
 
 // ErrSpin is the sentinel panic value of the spin detector.
@@ -156,16 +156,16 @@ var ErrInjected = errors.New("injected I/O failure")
 type FaultReader struct {
 	data  []byte
 	pos   int
-	k     int        // fault offset
-	kind  string     // "persistent" | "transient" | "with-data"
+	k     int    // fault offset
+	kind  string // "persistent" | "transient" | "with-data" | "transient-with-data"
 	sizes func() int
 	// transient: after the first failure deliver `extra` more bytes, then fail forever
-	extra     int
-	failed    int
-	delivered int
-	Calls     int
+	extra      int
+	failed     int
+	delivered  int
+	Calls      int
 	FaultCalls int
-	SpinLimit int
+	SpinLimit  int
 }
 
 // NewFaultReader creates a reader that fails at offset k.
@@ -179,7 +179,7 @@ func (f *FaultReader) Read(p []byte) (int, error) {
 		return 0, nil
 	}
 	limit := f.k
-	if f.kind == "transient" && f.failed > 0 {
+	if (f.kind == "transient" || f.kind == "transient-with-data") && f.failed > 0 {
 		limit = f.k + f.extra
 	}
 	if limit > len(f.data) {
@@ -211,6 +211,12 @@ func (f *FaultReader) Read(p []byte) (int, error) {
 	}
 	copy(p, f.data[f.pos:f.pos+n])
 	f.pos += n
+	if f.kind == "transient-with-data" && f.failed == 0 && f.pos >= limit {
+		// data and the failure in the same call; the reader then works again for `extra` bytes before it fails for good
+		f.failed++
+		f.FaultCalls++
+		return n, ErrInjected
+	}
 	if f.kind == "with-data" && f.pos >= limit {
 		f.failed++
 		f.FaultCalls++
